@@ -17,13 +17,13 @@ MaxRuns(b) == { w \in (1 .. Len(b)) \X (1 .. Len(b)) :
                   /\ (w[1] = 1 \/ ~b[w[1] - 1])
                   /\ (w[2] = Len(b) \/ ~b[w[2] + 1]) }
 
-MinRun(b, m) == [i \in 1 .. Len(b) |-> \E w \in MaxRuns(b) : w[1] <= i /\ i <= w[2] /\ w[2] - w[1] + 1 >= m]
+MinRun(b, m) == Strict([i \in 1 .. Len(b) |-> \E w \in MaxRuns(b) : w[1] <= i /\ i <= w[2] /\ w[2] - w[1] + 1 >= m])
 
 \* run length ending at / starting at every position
 RunLeft(b)  == FoldLeft(LAMBDA acc, x : Append(acc, IF x THEN (IF acc = <<>> THEN 0 ELSE acc[Len(acc)]) + 1 ELSE 0), <<>>, b)
 RunRight(b) == Reverse(RunLeft(Reverse(b)))
 MinRunFold(b, m) == LET l == RunLeft(b)  r == RunRight(b) IN
-                    [i \in 1 .. Len(b) |-> b[i] /\ l[i] + r[i] - 1 >= m]
+                    Strict([i \in 1 .. Len(b) |-> b[i] /\ l[i] + r[i] - 1 >= m])
 
 \* ---- what C08 states about an output o for input b and minimum m ----
 SameLength(b, o)   == Len(o) = Len(b)
